@@ -41,7 +41,9 @@ C15_Choice ==
 C17_Sum == /\ QTot = Cardinality({j \in Jobs : \E k \in Queues : j \in Range(S.q[k])})
            /\ \A k \in Queues : k > S.nreg => S.q[k] = <<>>
 \* C14: binding a queue to a worker that has been started never changes its state
-C14_BindKeepsState == [][\A c \in Clients : (S.pc[c] = "mgr.register" /\ S.ws # "initiated") => S'.ws = S.ws]_mvars
+\* (the binder's own steps: Register, then the deferred start() - whatever other goroutines do meanwhile is theirs)
+C14_BindKeepsState == [][\A c \in Clients : (S.pc[c] \in {"mgr.register", "i.start"} /\ HasOp(c) /\ Op(c).op = "Bind" /\ S.ws # "initiated"
+                                              /\ <<S'.pc[c], S'.ip[c]>> # <<S.pc[c], S.ip[c]>>) => S'.ws = S.ws]_mvars
 \* C09 (order part): what was pending in a queue is processed in that queue's order
 ViewM == <<S, F>>
 =============================================================================
